@@ -228,10 +228,15 @@ def slice(ctx: fw.Ctx) -> fw.Outcome:
            lambda src: any(gen.sustain_truth(g).startswith("T") for tr in src.tracks for g in tr.groups))
     extra_checks(ctx, out, cases)
     ic.stable_under_reads(ctx, out, cases, "sustains")
+    from .. import direct as _direct
+    _direct.run(ctx, out, 'instrument', ic.prof(flags=0.5, garbage=0.0, exotic_pad=0.25))  # the section's own public parser, given the lines between the braces (padding and all), builds the same track
     return out
 
 
 def replay(ctx, data):
+    if data.get("op") == "direct-section":
+        from .. import direct as _direct
+        return _direct.replay(data)
     if data.get("op") == "openflags":
         c, e, _ = impl.parse(data["text"])
         if c is None:
